@@ -99,6 +99,8 @@ func classify143(pr *an.PathResult) (acp, single, none, inRange *bool, unknown [
 			set(&inRange, !neg)
 		case s == ">=(in:nIn,len(in:tx.TxOut^))":
 			set(&inRange, neg)
+		case s == "<=(len(in:tx.TxOut^),in:nIn)": // the same test in normal form
+			set(&inRange, neg)
 		case strings.Contains(s, "in:hashType"):
 			unknown = append(unknown, s)
 		}
@@ -595,7 +597,13 @@ func cacheKind(cache map[string]string, s string) (string, bool) {
 	return "", false
 }
 
+// hasCondS: does the path hold the condition c (negated when neg)?  Conditions are stored in the normal form
+// of an.NormCond; the query is brought into the same form.
 func hasCondS(pr *an.PathResult, c string, neg bool) bool {
+	if t, err := an.ParseTerm(c); err == nil {
+		nt, nn := an.NormCond(t, neg)
+		c, neg = nt.String(), nn
+	}
 	for i, t := range pr.CondT {
 		if pr.CondNeg[i] == neg && t.String() == c {
 			return true
@@ -722,8 +730,10 @@ func c02BIP341(r *core.Run, p *core.Program) {
 				set(&script, !neg)
 			case s == "!=(in:execdata.M_annex_hash^,nil)":
 				set(&annex, !neg)
-			case s == ">=(in:in_pos,len(in:tx.TxOut^))":
+			case s == ">=(in:in_pos,len(in:tx.TxOut^))", s == "<=(len(in:tx.TxOut^),in:in_pos)":
 				set(&inRange, neg)
+			case s == "<(in:in_pos,len(in:tx.TxOut^))":
+				set(&inRange, !neg)
 			case s == "==(in:hash_type,const:0)" || s == "==(const:0,in:hash_type)":
 				if !neg {
 					set(&outAll, true)
